@@ -20,6 +20,7 @@ import (
 	"os"
 	"path"
 	"sort"
+	"strconv"
 	"strings"
 	"sync"
 	"syscall"
@@ -1150,4 +1151,34 @@ func (f *FS) SetWriteShape(chunks, delay int) {
 	f.mu.Lock()
 	f.WriteChunks, f.WriteDelay = chunks, delay
 	f.mu.Unlock()
+}
+
+// CreateTemp / MkdirTemp mirror os: deterministic names from a counter.
+func CreateTemp(dir, pattern string) (*File, error) {
+	if dir == "" {
+		dir = TempDir()
+	}
+	f := Cur()
+	f.mu.Lock()
+	f.nextIno++
+	n := f.nextIno
+	f.mu.Unlock()
+	name := strings.Replace(pattern, "*", strconv.Itoa(n), 1)
+	if !strings.Contains(pattern, "*") {
+		name = pattern + strconv.Itoa(n)
+	}
+	return OpenFile(dir+"/"+name, O_RDWR|O_CREATE|O_EXCL, 0o600)
+}
+
+func MkdirTemp(dir, pattern string) (string, error) {
+	if dir == "" {
+		dir = TempDir()
+	}
+	f := Cur()
+	f.mu.Lock()
+	f.nextIno++
+	n := f.nextIno
+	f.mu.Unlock()
+	name := dir + "/" + strings.Replace(pattern, "*", strconv.Itoa(n), 1)
+	return name, Mkdir(name, 0o700)
 }
